@@ -183,6 +183,12 @@ fn lzma2_pool(rng: &mut StdRng) -> Vec<(Vec<u8>, String)> {
     // valid, single property set
     let (s, _, _) = lzma2_stream(&[Chunk::Lzma { class: 3, props: Some(pa), prog: walk(rng, pa, 120) }]);
     v.push((s, "valid-a".into()));
+    // valid streams whose FIRST properties have lp > 0 (literal rows selected by position): a table kept from an
+    // earlier, larger-context stream must not leak into them
+    for (pp, nm) in [(pb, "valid-lp2"), (pc, "valid-lc1lp2"), (Props { lc: 0, lp: 4, pb: 0 }, "valid-lp4")] {
+        let (s, _, _) = lzma2_stream(&[Chunk::Lzma { class: 3, props: Some(pp), prog: walk(rng, pp, 200) }]);
+        v.push((s, nm.into()));
+    }
     // valid, property change with different and with equal lc+lp, ends under pb / pc
     let (s, _, _) = lzma2_stream(&[
         Chunk::Lzma { class: 3, props: Some(pa), prog: walk(rng, pa, 60) },
